@@ -354,6 +354,9 @@ func main() {
 			}
 			if err == nil {
 				err = c19.RunNoCtx(d, res)
+				if err == nil {
+					err = c19.RunNamedCtx(res)
+				}
 			}
 			if err == nil {
 				err = c19.RunMethods(d, res)
